@@ -1,5 +1,6 @@
 CONSTANTS
   Variant = "layout"
+  Full = FALSE
   PNames <- MC_PNames
   ANames <- MC_ANames
   PRates <- MC_PRates
